@@ -337,6 +337,8 @@ class Check:
                           failing_input_found=found)
             json.dump(replay, open(path, "w"), indent=1, default=str)
             log("VIOLATION property=%s replay=%s%s" % (self.pid, path, "" if found else " no-failing-input-found"))
+            brief = {k: replay[k] for k in ("signature", "what", "law", "kind", "config", "case", "error", "theorem_file") if k in replay}
+            log("  detail: " + json.dumps(brief, default=str)[:600])
         return 1
 
 
